@@ -4,7 +4,9 @@ HARNESS = "C13.cpp"
 SOURCES = ["src/containers/grid/GridIndexMapping.cpp"]
 CLAIM = ("GridIndexMapping<double,2> / <float,3>: for every symbolic extent, resolution and in-extent point (exact-real "
          "semantics of the implemented formulae) the cell index is below the cell count on each axis and the point lies within "
-         "half a resolution of the returned cell centre; cell counts per axis are enumerated by the solver up to the stated bound")
+         "half a resolution of the returned cell centre; every cell centre maps back to its own index, consecutive centres are one "
+         "resolution apart, the first and last cells cover the extent's bounds; interval form and symmetric maximal-range form; "
+         "cell counts per axis are enumerated by the solver up to the stated bound")
 BOUNDS = dict(quick="cells per axis <= 4 (double 2D) / <= 3 (float 3D); bounds in [-1e3,1e3], resolution in [1e-3,10]",
               thorough="cells per axis <= 8 (2D) / <= 5 (3D)")
 ASSUMPTIONS = ["floats are read as reals (exact domain): rounding in floor/ceil/division is outside the claim"]
@@ -12,13 +14,18 @@ OUTSIDE = ["IEEE rounding of the index computation", "more cells per axis than t
 
 def entries(tier):
     n = 4 if tier == "quick" else 8
-    es = [Entry("c13_interval_d2", params=dict(maxcells=n, fixres=0), concretize_fptoi=True, note="symbolic resolution", budget=dict(time=150, enum_ms=3000)),
-          Entry("c13_interval_f3", params=dict(maxcells=3 if tier == "quick" else 5, fixres=0), concretize_fptoi=True, note="symbolic resolution", budget=dict(time=150, enum_ms=3000))]
+    es = [Entry("c13_interval_d2", params=dict(maxcells=n, fixres=0, form=0), concretize_fptoi=True, note="symbolic resolution", budget=dict(time=260, enum_ms=3000)),
+          Entry("c13_interval_f3", params=dict(maxcells=3 if tier == "quick" else 5, fixres=0, form=0), concretize_fptoi=True, note="symbolic resolution", budget=dict(time=260, enum_ms=3000))]
     # concrete resolutions: the index arithmetic is linear, every enumeration is complete
     for res in ([0.25, 1.0] if tier == "quick" else [0.25, 1.0, 0.1, 1e-3, 10.0]):
-        es.append(Entry("c13_interval_d2", params=dict(maxcells=n + 2, fixres=res), concretize_fptoi=True, shard=4))
-        es.append(Entry("c13_interval_f3", params=dict(maxcells=3 if tier == "quick" else 4, fixres=res), concretize_fptoi=True, shard=4))
+        es.append(Entry("c13_interval_d2", params=dict(maxcells=n + 2, fixres=res, form=0), concretize_fptoi=True, shard=4))
+        es.append(Entry("c13_interval_f3", params=dict(maxcells=3 if tier == "quick" else 4, fixres=res, form=0), concretize_fptoi=True, shard=4))
+    # symmetric maximal-range constructor
+    for res in ([0.5] if tier == "quick" else [0.5, 0.1]):
+        es.append(Entry("c13_interval_d2", params=dict(maxcells=n + 3, fixres=res, form=1), concretize_fptoi=True, note="symmetric maximal-range form"))
+        es.append(Entry("c13_interval_f3", params=dict(maxcells=5, fixres=res, form=1), concretize_fptoi=True, note="symmetric maximal-range form"))
     return es
 
 def tv_vectors(tier):
-    return [("c13_interval_d2", dict(maxcells=100, fixres=0), dict(lo0=-1.0,lo1=-2.0,up0=3.0,up1=1.5,p0=0.3,p1=1.2,res=0.25))]
+    return [("c13_interval_d2", dict(maxcells=100, fixres=0, form=1), dict(lo0=-1.75,lo1=-1.75,up0=1.75,up1=1.75,p0=0.3,p1=-1.75,res=0.5)),
+            ("c13_interval_d2", dict(maxcells=100, fixres=0, form=0), dict(lo0=-1.0,lo1=-2.0,up0=3.0,up1=1.5,p0=0.3,p1=1.2,res=0.25))]
